@@ -3,6 +3,7 @@ import Poulpy.Lemmas.AvxIndex
 import Poulpy.Lemmas.AvxQ120
 import Poulpy.Lemmas.AvxNttLoop
 import Poulpy.Lemmas.NttFinal
+import Poulpy.Lemmas.AvxCnv
 /-
 C10 — all back ends give bit-identical results: lane level.
 
@@ -740,5 +741,40 @@ example : (match Ntt120.inttTableK Ntt120.primes30 3 8 with
     | _ => false) = true := by decide +kernel
 
 end NttAvx
+
+/-! ## FFT64Avx: the `i64` by-constant convolution (`poulpy-cpu-avx/src/fft64/convolution.rs`, after repair 34)
+
+The kernels `i64_convolution_by_const_1coeff_avx` / `i64_convolution_by_real_const_2coeffs_avx` multiplied with `_mm256_mul_epi32`
+(sign-extended LOW 32 bits of each operand); the HAL entry point `cnv_by_const_apply` states no such restriction and FFT64Ref is
+exact in wrapping `i64`.  Repair 34 replaces the product by `mul_i64_wrapping_avx2`; the old product is kept as `mulEpi32Old`. -/
+namespace CnvAvx
+open Avx.Cnv
+
+/-- **`mul_i64_wrapping_avx2` is `i64::wrapping_mul`** on every pair of 64-bit lanes:
+`a_lo·b_lo + ((a_lo·b_hi + a_hi·b_lo) << 32)` from three `_mm256_mul_epu32` -/
+theorem mul64_lanes_eq_wrapping_mul (a b : W) : mulI64WrappingAvx2 a b = a * b := mul64_eq a b
+example : mulI64WrappingAvx2 3000000000#64 3#64 = 9000000000#64 ∧ mulI64WrappingAvx2 (-3000000000#64) (-0x7FFFFFFFFFFFFFFF#64) = -3000000000#64 * -0x7FFFFFFFFFFFFFFF#64 := by decide
+
+/-- the two-coefficient kernel (zero / `k0`-only / three-region schedule, one broadcast of `b[j]` feeding two accumulators)
+computes what two calls of the one-coefficient kernel compute -/
+theorem fft64avx_cnv_by_const_2coeffs_schedule (mul : W → W → W) (k : Nat) (a : List W) (aSize : Nat) (b : List W) (ha : 1 ≤ aSize) :
+    coeff2Avx mul k a aSize b = coeff1 mul k a aSize b ++ coeff1 mul (k + 1) a aSize b := coeff2Avx_eq mul k a aSize b ha
+
+/-- **whole kernel, all inputs**: `I64Ops::i64_convolution_by_const` of FFT64Avx = FFT64Ref for every row count, offset, block
+of `a_size ≥ 1` rows (asserted by the caller), constant vector and every `i64` value — no `i32` restriction left -/
+theorem fft64avx_cnv_by_const_eq_ref_all_inputs (dstSize offset : Nat) (a : List W) (aSize : Nat) (b : List W) (ha : 1 ≤ aSize) :
+    byConstAvx dstSize offset a aSize b = byConstRef dstSize offset a aSize b := byConstAvx_eq_ref dstSize offset a aSize b ha
+example : byConstAvx 3 1 ((List.range 16).map (fun i => BitVec.ofNat 64 (3000000000 + i))) 2 [3#64, -5#64, 0x7FFFFFFFFFFFFFFF#64]
+    = byConstRef 3 1 ((List.range 16).map (fun i => BitVec.ofNat 64 (3000000000 + i))) 2 [3#64, -5#64, 0x7FFFFFFFFFFFFFFF#64] := by decide
+
+/-- what the repair bought: the kernels before it agree with the reference lane only on sign extensions of 32-bit values, and
+differ on the witness `3000000000 · 3` -/
+theorem fft64avx_cnv_by_const_old_lane (a b : W) (ha : (a.truncate 32).signExtend 64 = a) (hb : (b.truncate 32).signExtend 64 = b) :
+    mulEpi32Old a b = a * b := mulEpi32Old_eq a b ha hb
+theorem fft64avx_cnv_by_const_old_counterexample :
+    byConstAvxOld 1 0 [3000000000#64, 1#64, -3000000000#64, 5#64, 6#64, 7#64, 8#64, 9#64] 1 [3#64]
+      ≠ byConstRef 1 0 [3000000000#64, 1#64, -3000000000#64, 5#64, 6#64, 7#64, 8#64, 9#64] 1 [3#64] := byConstAvxOld_differs
+
+end CnvAvx
 
 end C10
